@@ -374,6 +374,19 @@ def run_check(prop, tier, seed):
                     first = [dict(index=i, case=descs[i] if i < len(descs) else None) for i in mism[:5]]
                     problems.append(("correspondence", "Corr/%s: model and implementation disagree on %d of %d cases"
                                      % (prop, len(mism), meta.get("model_cases", 0)), json.dumps(first)[:3000], first))
+    # ---- the disagreeing cases themselves are the first candidates for a failing input: replay each on the
+    #      implementation with the property's own oracles (law checks, panic/hang detection)
+    if mism and meta is not None and not violations and hok:
+        descs = meta.get("case_descs", [])
+        for i in mism[:12]:
+            if i >= len(descs):
+                continue
+            rp = write_replay(prop, "case", dict(case=descs[i], note="case on which model and implementation disagree"))
+            rc, out, _ = sh([os.path.join(BUILD, "harness"), "-replay", rp, prop], cwd=ROOT, env=GOENV, timeout=300)
+            if rc == 1:
+                violations.append(dict(law="replayed-disagreement", **{"class": "%s/replayed-disagreement" % prop},
+                                       detail=out[-600:], replay=descs[i]))
+                break
     # ---- search when an obligation broke and no oracle violation is at hand
     if problems and not violations and cfg.get("harness", True) and hok and tier == "quick":
         rc, hout, meta2 = run_harness(prop, "thorough", seed + 7919, outdir + "-search", cfg.get("timeout_search", 900))
